@@ -14,8 +14,9 @@ def run(ctx):
         raise vlib.CheckError("harness does not build against /repo:\n" + out[-3000:])
     quick = ctx.tier == "quick"
     runs = [("basic", "mem", 600 if quick else 6000, "core_failures"),
-            ("all", "mem", 1200 if quick else 15000, "failures"),
-            ("all", "db:2", 300 if quick else 3000, "failures"),
+            ("layered", "mem", 900 if quick else 12000, "failures"),
+            ("layered", "db:2", 300 if quick else 3000, "failures"),
+            ("all", "mem", 500 if quick else 8000, "graded_failures"),
             ("tfc", "mem", 300 if quick else 5000, "failures")]
     total, dis_all, dists, real_fail, samples, hist_total, changeback = 0, [], {}, [], [], 0, []
     execs = noexec = 0
@@ -56,7 +57,7 @@ def run(ctx):
     cov.update({"traces_validated_against_impl": total, "evaluations": hist_total, "distinct_nontrivial": total,
                 "rule": "as C01; judged per executor invocation: never computed before, or a dependency read by the previous run has a different from-scratch value now, external inputs only on first demand / refresh, at most once per epoch",
                 "samples": samples, "input_distribution": dists, "executions_judged": execs, "queries_served_without_execution": noexec,
-                "disagreements_checked": len(dis_all)})
+                "disagreements_checked": len(dis_all), "schedule_dependent_cases": ec.SCHEDULE_DEPENDENT})
     return ctx.finish("proof", cov, TB)
 
 def replay(ctx, path):
